@@ -12,7 +12,6 @@ import (
 
 	api "github.com/regen-network/regen-ledger/api/v2/regen/data/v1"
 	"github.com/regen-network/regen-ledger/x/data/v3"
-	"github.com/regen-network/regen-ledger/x/data/v3/server/hasher"
 	zz "github.com/regen-network/regen-ledger/x/data/v3/zzverif"
 )
 
@@ -84,11 +83,11 @@ func call16(call func(ctx context.Context) error) (err error, panicked bool) {
 	return call(zz.Context()), false
 }
 
+// symServer: the real constructor over the model tables; the module database, the generated
+// state store and the ID hasher are replaced by the engine (tables with arbitrary content,
+// an uninterpreted hash function), everything else NewServer sets up is kept as it is.
 func symServer() serverImpl {
-	return serverImpl{
-		iriHasher:  zz.UFStub("hasher").(hasher.Hasher),
-		stateStore: zz.OrmStore("data").(api.StateStore),
-	}
+	return NewServer(nil, nil, nil)
 }
 
 func sameTS(a, b *timestamppb.Timestamp) bool {
